@@ -35,8 +35,12 @@ func (fs *Filespace) Copy(src, dest string) (err error) {
 		srcNode      os.FileInfo
 		copiedNode   os.FileInfo
 	)
-	src = varutil.CleanPath(src)
-	dest = varutil.CleanPath(dest)
+	if src, err = varutil.ReduceAbsPath(src); err != nil {
+		return err
+	}
+	if dest, err = varutil.ReduceAbsPath(dest); err != nil {
+		return err
+	}
 	if destDirPath, destNodeName, err = splitContainsPath(dest); err != nil {
 		return err
 	}
@@ -61,8 +65,12 @@ func (fs *Filespace) CopyDirectory(src, dest string) (err error) {
 		srcDir       *Dir
 		copiedDir    *Dir
 	)
-	src = varutil.CleanPath(src)
-	dest = varutil.CleanPath(dest)
+	if src, err = varutil.ReduceAbsPath(src); err != nil {
+		return err
+	}
+	if dest, err = varutil.ReduceAbsPath(dest); err != nil {
+		return err
+	}
 	if destDirPath, destNodeName, err = splitContainsPath(dest); err != nil {
 		return err
 	}
@@ -87,8 +95,12 @@ func (fs *Filespace) CopyFile(src, dest string) (err error) {
 		srcFile      *File
 		copiedFile   *File
 	)
-	src = varutil.CleanPath(src)
-	dest = varutil.CleanPath(dest)
+	if src, err = varutil.ReduceAbsPath(src); err != nil {
+		return err
+	}
+	if dest, err = varutil.ReduceAbsPath(dest); err != nil {
+		return err
+	}
 	if destDirPath, destNodeName, err = splitContainsPath(dest); err != nil {
 		return err
 	}
@@ -107,7 +119,9 @@ func (fs *Filespace) CopyFile(src, dest string) (err error) {
 // ReadDir return directory nodes
 func (fs *Filespace) ReadDir(srcPath string) (nodes []os.FileInfo, err error) {
 	var srcDir *Dir
-	srcPath = varutil.CleanPath(srcPath)
+	if srcPath, err = varutil.ReduceAbsPath(srcPath); err != nil {
+		return nil, err
+	}
 	if srcDir, err = getDirByPath(fs.root, srcPath); err != nil {
 		return nil, err
 	}
@@ -116,6 +130,10 @@ func (fs *Filespace) ReadDir(srcPath string) (nodes []os.FileInfo, err error) {
 
 // IsExist return true if node exist
 func (fs *Filespace) IsExist(srcPath string) bool {
+	var err error
+	if srcPath, err = varutil.ReduceAbsPath(srcPath); err != nil {
+		return false
+	}
 	if srcNode, err := getNodeByPath(fs.root, srcPath); err != nil || srcNode == nil {
 		return false
 	}
@@ -124,7 +142,10 @@ func (fs *Filespace) IsExist(srcPath string) bool {
 
 // IsFile return true if node exist and is a file
 func (fs *Filespace) IsFile(srcPath string) bool {
-	srcPath = varutil.CleanPath(srcPath)
+	var err error
+	if srcPath, err = varutil.ReduceAbsPath(srcPath); err != nil {
+		return false
+	}
 	if srcNode, err := getFileByPath(fs.root, srcPath); err != nil || srcNode == nil {
 		return false
 	}
@@ -133,7 +154,10 @@ func (fs *Filespace) IsFile(srcPath string) bool {
 
 // IsDir return true if node exist and is a directory
 func (fs *Filespace) IsDir(srcPath string) bool {
-	srcPath = varutil.CleanPath(srcPath)
+	var err error
+	if srcPath, err = varutil.ReduceAbsPath(srcPath); err != nil {
+		return false
+	}
 	if srcNode, err := getDirByPath(fs.root, srcPath); err != nil || srcNode == nil {
 		return false
 	}
@@ -142,7 +166,9 @@ func (fs *Filespace) IsDir(srcPath string) bool {
 
 // MkdirAll create directory recursively
 func (fs *Filespace) MkdirAll(destPath string, filemode os.FileMode) (err error) {
-	destPath = varutil.CleanPath(destPath)
+	if destPath, err = varutil.ReduceAbsPath(destPath); err != nil {
+		return err
+	}
 	_, err = mkdirAll(fs.root, destPath, filemode)
 	return err
 }
@@ -195,7 +221,9 @@ func (fs *Filespace) Reader(srcPath string) (reader filesystem.Reader, err error
 // ReadFile return file data
 func (fs *Filespace) ReadFile(srcPath string) (data []byte, err error) {
 	var file *File
-	srcPath = varutil.CleanPath(srcPath)
+	if srcPath, err = varutil.ReduceAbsPath(srcPath); err != nil {
+		return nil, err
+	}
 	if file, err = getFileByPath(fs.root, srcPath); err != nil {
 		return nil, err
 	}
@@ -212,7 +240,9 @@ func (fs *Filespace) WriteFile(destPath string, data []byte, filemode os.FileMod
 		node         os.FileInfo
 		ok           bool
 	)
-	destPath = varutil.CleanPath(destPath)
+	if destPath, err = varutil.ReduceAbsPath(destPath); err != nil {
+		return err
+	}
 	if destDirPath, destNodeName, err = splitContainsPath(destPath); err != nil {
 		return err
 	}
@@ -240,20 +270,26 @@ func (fs *Filespace) Filespace(basePath string) (filesystem.Filespace, error) {
 }
 
 // Remove delete node by path
-func (fs *Filespace) Remove(nodePath string) error {
-	nodePath = varutil.CleanPath(nodePath)
+func (fs *Filespace) Remove(nodePath string) (err error) {
+	if nodePath, err = varutil.ReduceAbsPath(nodePath); err != nil {
+		return err
+	}
 	return removeNodeByPath(fs.root, nodePath, true)
 }
 
 // RemoveAll delete node by path recursively
-func (fs *Filespace) RemoveAll(nodePath string) error {
-	nodePath = varutil.CleanPath(nodePath)
+func (fs *Filespace) RemoveAll(nodePath string) (err error) {
+	if nodePath, err = varutil.ReduceAbsPath(nodePath); err != nil {
+		return err
+	}
 	return removeNodeByPath(fs.root, nodePath, false)
 }
 
 // Lstat returns a FileInfo describing the named file.
-func (fs *Filespace) Lstat(nodePath string) (os.FileInfo, error) {
-	nodePath = varutil.CleanPath(nodePath)
+func (fs *Filespace) Lstat(nodePath string) (_ os.FileInfo, err error) {
+	if nodePath, err = varutil.ReduceAbsPath(nodePath); err != nil {
+		return nil, err
+	}
 	return getNodeByPath(fs.root, nodePath)
 }
 
